@@ -386,10 +386,18 @@ pub fn scenarios(cfg: &RunCfg) -> Vec<Scenario> {
     let dec: Vec<Body> = [2usize, 3, 4].iter().map(|s| Body::Decrypt(*s)).collect();
     for scheme in [Scheme::BFV, Scheme::BGV] {
         for ms in multisets(&dec, 2) {
+            // quick tier: BGV only for the pairs that make both threads grow the cache
+            if !th && scheme == Scheme::BGV && ms[0] == Body::Decrypt(2) && ms[1] != Body::Decrypt(3) {
+                continue;
+            }
             v.push(Scenario { name: name(&format!("s1_{:?}", scheme).to_lowercase(), &ms), scheme, threads: ms, bound: None });
         }
     }
     for ms in multisets(&dec, 3) {
+        // quick tier: the multisets in which at least two threads need to grow the cache
+        if !th && ms.iter().filter(|b| **b != Body::Decrypt(2)).count() < 2 {
+            continue;
+        }
         v.push(Scenario { name: name("s1_bfv3", &ms), scheme: Scheme::BFV, threads: ms, bound: if th { None } else { Some(2) } });
     }
     // S2: key generator: relin keys needing power 2 / 3, Galois keys
@@ -400,12 +408,18 @@ pub fn scenarios(cfg: &RunCfg) -> Vec<Scenario> {
         v.push(Scenario { name: name("s2_bfv", &ms), scheme: Scheme::BFV, threads: ms, bound: if heavy && !th { Some(2) } else { None } });
     }
     for ms in multisets(&kg, 3) {
+        if !th && (ms[0] == ms[2] || ms[0] == Body::Relin(2)) {
+            continue;
+        }
         v.push(Scenario { name: name("s2_bfv3", &ms), scheme: Scheme::BFV, threads: ms, bound: Some(if th { 3 } else { 1 }) });
     }
     // S3: rotations through the shared Galois table cache (NTT path)
     let rot = vec![Body::Rotate(3), Body::Rotate(5)];
     for scheme in [Scheme::BGV, Scheme::CKKS, Scheme::BFV] {
         for ms in multisets(&rot, 2) {
+            if !th && scheme != Scheme::BGV && ms[0] == ms[1] {
+                continue;
+            }
             v.push(Scenario { name: name(&format!("s3_{:?}", scheme).to_lowercase(), &ms), scheme, threads: ms, bound: Some(if th { 4 } else { 2 }) });
         }
     }
@@ -428,5 +442,5 @@ pub fn scenarios(cfg: &RunCfg) -> Vec<Scenario> {
 pub fn sections(cfg: &RunCfg) -> Vec<Box<dyn AnySection>> {
     let sc = scenarios(cfg);
     let n = sc.len() as f64;
-    sc.into_iter().enumerate().map(|(i, s)| Box::new(E3Section { sc: s, seed: cfg.seed, budget_share: 1.0 / (n - i as f64) }) as Box<dyn AnySection>).collect()
+    sc.into_iter().enumerate().map(|(i, s)| Box::new(E3Section { sc: s, seed: cfg.seed, budget_share: (3.0 / (n - i as f64)).min(1.0) }) as Box<dyn AnySection>).collect()
 }
